@@ -108,7 +108,7 @@ func checkC01(c *Ctx) {
 			nKeyStores++
 			o := m.Origins(st.Val)
 			okOrigin := o.all(func(k string) bool { return strings.HasPrefix(k, "cfg:") || strings.HasPrefix(k, "const:") }) && o["cfg:Group"]
-			c.check(f == m.Ctor && okOrigin, "R2", "key assigned in "+shortFn(f), in, "origins %s; required: in the constructor, from cfg.Group and constants only", o)
+			c.check(m.isCtorCode(f) && okOrigin, "R2", "key assigned in "+shortFn(f), in, "origins %s; required: in the constructor, from cfg.Group and constants only", o)
 		})
 	}
 	c.check(nKeyStores == 1, "R2", "key assigned exactly once", nil, "%d stores to the key field", nKeyStores)
